@@ -16,7 +16,7 @@ PROPS = {
                 rule="a history is non-trivial when a begin/end-of-block step moved coins (payout, settlement or refund)"),
     "C02": dict(sections=["st.dep", "st.sub", "st.alloc", "st.payout", "ev"], res_ops=["B", "E"], res_kinds=["node_subscribe", "sub_cancel"],
                 rule="non-trivial: a node subscription was removed (its ledger paid+refunded=deposit was checked)"),
-    "C03": dict(sections=[], res_ops=["B", "E"], res_kinds=[], halt=True,
+    "C03": dict(sections=[], res_ops=["B", "E"], res_kinds=[], halt=True, domain=True,
                 rule="non-trivial: a block hook processed due records and moved coins (settlement, payout, refund) in the history", nt_from="C01"),
     "C04": dict(sections=["st.sub", "st.sess", "st.node", "st.payout", "st.ix.node_q", "st.ix.sub_q", "st.ix.sess_q", "st.ix.pay_q", "st.now", "ev"],
                 res_ops=["B", "E"], res_kinds=["sub_cancel", "sess_end", "node_update_status", "sess_update"],
@@ -124,6 +124,8 @@ def evaluate(pid, d, done, V):
         ops_path = os.path.join(d, "ops.%d.txt" % k)
         tot_ops += sh["ops"]
         tot_hist += sh["histories"]
+        outdom = {int(h): i for h, i in (sh.get("out_of_domain") or {}).items()}
+        stats["histories_in_domain"] = stats.get("histories_in_domain", 0) + sh.get("in_domain", sh["histories"])
         for h, m in sh["nontrivial"].items():
             if m.get(nt_key):
                 nontriv += 1
@@ -135,6 +137,11 @@ def evaluate(pid, d, done, V):
         seen = set()
         for v in sh["violations"]:
             if v["property"] != pid and not (v["property"] == "MONITOR-ERROR"):
+                continue
+            if P.get("domain") and v["h"] in outdom and v["i"] >= outdom[v["h"]]:
+                # the theorems of this property quantify over the configuration domain of DESIGN section 5 only; what happens after a
+                # history left it (never produced by the generator; a replay may) is recorded, not reported
+                stats["signals_outside_domain"] = stats.get("signals_outside_domain", 0) + 1
                 continue
             key = (v["h"], v["what"][:60])
             if key in seen or len(findings) > 20:
@@ -161,6 +168,9 @@ def evaluate(pid, d, done, V):
             else:
                 hit = any(sec.startswith(s) or s == "*" for s in P["sections"])
             if not hit:
+                continue
+            if P.get("domain") and m["h"] in outdom and m["i"] >= outdom[m["h"]] and "halt" in (m["impl"], m["model"]):
+                stats["signals_outside_domain"] = stats.get("signals_outside_domain", 0) + 1
                 continue
             lines = history_prefix(ops_path, m["h"], m["i"])
             meta = {"property": pid, "correspondence": "model and implementation disagree", "section": sec, "history": m["h"], "op_index": m["i"],
@@ -311,9 +321,16 @@ def evaluate_replay(pid, path, V, log):
         subprocess.run([os.path.join(V, "model/hub_model_run"), ops], stdout=f, check=True)
     cmp_res = json.loads(subprocess.run([sys.executable, os.path.join(V, "tools/compare.py"), obs, mobs], stdout=subprocess.PIPE, text=True).stdout)
     viol, nontriv = monitors.run_monitors(obs, ops)
+    outdom = {}
+    for line in open(mobs):
+        o = json.loads(line)
+        if o.get("dom") is False and o["h"] not in outdom:
+            outdom[o["h"]] = o["i"]
     findings = []
     for v in viol:
         if v["property"] == pid:
+            if PROPS[pid].get("domain") and v["h"] in outdom and v["i"] >= outdom[v["h"]]:
+                continue   # outside the configuration domain of DESIGN section 5: not a violation of this property
             findings.append({"what": "op %d: %s" % (v["i"], v["what"]), "replay": path, "concrete": True, "key": finding_key(v["what"])})
     if not findings:
         for m in cmp_res["mismatches"]:
